@@ -119,7 +119,7 @@ Proof.
   set (tl := sem_tests_all "struct" tests (DStruct d1)).
   destruct (e0 || (rerrored l2 || rerrored tl)).
   - cbn [fst snd]. split; [reflexivity|]. rewrite !app_nil_r, !map_app. now rewrite B.
-  - destruct (sem_pts_loop (fun (y : string) (e : uerr) => mk_err_issue y "struct" (uerr_text e)) false pts (DStruct d1)) as [lp dp] eqn:E.
+  - destruct (sem_pts_loop (fun (y : string) (e : uerr) => mk_unknown_issue y "struct" e) false pts (DStruct d1)) as [lp dp] eqn:E.
     cbn [fst snd]. split; [reflexivity|]. rewrite !map_app. now rewrite B.
 Qed.
 
